@@ -244,6 +244,19 @@ var verifVVCfgs = []verifVV{
 		[]labels.Labels{stub.Labels("__name__", "foo", "a", "x", "b", "1")},
 		[]labels.Labels{stub.Labels("__name__", "bar", "a", "x", "c", "1"), stub.Labels("__name__", "bar", "a", "x", "c", "2")},
 		parser.VectorMatching{Card: parser.CardManyToOne, On: true, MatchingLabels: []string{"a"}}},
+	// label slices with spare capacity from here on (an append would write into the child's memory)
+	{"N:1 on(a) group_left(b) (included label sorts between the many side's labels)",
+		[]labels.Labels{stub.LabelsCap(2, "__name__", "foo", "a", "x", "z", "1")},
+		[]labels.Labels{stub.LabelsCap(2, "__name__", "bar", "a", "x", "b", "2")},
+		parser.VectorMatching{Card: parser.CardManyToOne, On: true, MatchingLabels: []string{"a"}, Include: []string{"b"}}},
+	{"N:1 on(a) group_left(c) (included label absent on the one side, present on the many side)",
+		[]labels.Labels{stub.LabelsCap(2, "__name__", "foo", "a", "x", "c", "m")},
+		[]labels.Labels{stub.LabelsCap(2, "__name__", "bar", "a", "x")},
+		parser.VectorMatching{Card: parser.CardManyToOne, On: true, MatchingLabels: []string{"a"}, Include: []string{"c"}}},
+	{"1:N on(a) group_right(c, d)",
+		[]labels.Labels{stub.LabelsCap(2, "__name__", "bar", "a", "x", "c", "z", "d", "w")},
+		[]labels.Labels{stub.LabelsCap(3, "__name__", "foo", "a", "x", "b", "1"), stub.LabelsCap(3, "__name__", "foo", "a", "x", "b", "2")},
+		parser.VectorMatching{Card: parser.CardOneToMany, On: true, MatchingLabels: []string{"a"}, Include: []string{"c", "d"}}},
 }
 
 var verifVVOps = []parser.ItemType{parser.SUB, parser.GTR, parser.EQLC}
